@@ -45,6 +45,9 @@ type pgTr struct {
 	callees map[string]bool
 	assume  map[string]bool
 	progFns map[string]bool // names of prog-shaped targets
+	sendFns map[string]bool // send-shaped targets already translated
+	sls     map[string]bool // locals that are slices of the pooled array (Ether, IP4)
+	buf     string          // the local holding the pooled array
 }
 
 func (x *pgTr) fail(n ast.Node, format string, a ...any) {
@@ -173,6 +176,9 @@ func (x *pgTr) expr(e ast.Expr) (string, string) {
 			}
 			x.fail(v, "field of the call's entry")
 		}
+		if nodeText(v) == "h.NICInfo.HostAddr4.MAC" && x.mode == pgSend {
+			return "e.hostMAC", "bytes"
+		}
 		if nodeText(v) == "h.NICInfo.HostAddr4" {
 			x.vars["h.NICInfo.HostAddr4"] = "hostAddr4"
 			return "hostAddr4", "addr"
@@ -207,6 +213,8 @@ func (x *pgTr) kindOf(t types.Type) string {
 		return "err"
 	case "[]byte", "packet.ICMP", "net.HardwareAddr", "netip.Addr":
 		return "bytes"
+	case "packet.Ether", "packet.IP4":
+		return "sl"
 	case "string", "untyped string":
 		return "str"
 	case "*packet.icmpEntry":
@@ -338,6 +346,14 @@ func (x *pgTr) ret(r *ast.ReturnStmt, ind string) string {
 		}
 		if c, ok := r.Results[0].(*ast.CallExpr); ok {
 			fn := nodeText(c.Fun)
+			if fn == "h.icmp4SendPacket" && x.sendFns["icmp4SendPacket"] {
+				var args []string
+				for _, a := range c.Args {
+					t, _ := x.expr(a)
+					args = append(args, t)
+				}
+				return ind + "Session_icmp4SendPacket e sent " + strings.Join(args, " ") + "\n"
+			}
 			if fn == "h.icmp4SendPacket" || fn == "h.icmp6SendPacket" {
 				var args []string
 				for _, a := range c.Args {
@@ -398,6 +414,11 @@ func (x *pgTr) block(ss []ast.Stmt, ind string, rest func(ind string) string) st
 		}
 		x.ignore(s, "lock")
 		return next(ind)
+	}
+	if x.mode == pgSend {
+		if out, ok := x.sendStmt(s, ind, next); ok {
+			return out
+		}
 	}
 	switch v := s.(type) {
 	case *ast.ReturnStmt:
@@ -662,6 +683,7 @@ var pingTargets = []struct {
 	{"Session", "ping", pgProg},
 	{"Session", "Ping6", pgProg},
 	{"Session", "Ping", pgProg},
+	{"Session", "icmp4SendPacket", pgSend},
 	{"Session", "ICMP4SendEchoRequest", pgSend},
 	{"Session", "ICMP6SendEchoRequest", pgSend},
 }
@@ -672,6 +694,7 @@ func pingFacts(root *packages.Package, b *strings.Builder) {
 	var tr, untr, ignored []string
 	callees, assume := map[string]bool{}, map[string]bool{}
 	progFns := map[string]bool{}
+	sendFns := map[string]bool{}
 	for _, t := range pingTargets {
 		if t.mode == pgProg {
 			progFns[t.name] = true
@@ -688,13 +711,16 @@ func pingFacts(root *packages.Package, b *strings.Builder) {
 			continue
 		}
 		var ign []string
-		x := &pgTr{info: root.TypesInfo, mode: t.mode, fname: lean, vars: map[string]string{}, ignored: &ign, callees: callees, assume: assume, progFns: progFns}
+		x := &pgTr{info: root.TypesInfo, mode: t.mode, fname: lean, vars: map[string]string{}, ignored: &ign, callees: callees, assume: assume, progFns: progFns, sendFns: sendFns, sls: map[string]bool{}}
 		body, sig, err := x.translate(fd)
 		if err != "" {
 			untr = append(untr, lean+": "+err)
 			continue
 		}
 		tr = append(tr, lean)
+		if t.mode == pgSend {
+			sendFns[t.name] = true
+		}
 		ignored = append(ignored, ign...)
 		pos := fset.Position(fd.Pos())
 		do := ""
@@ -801,4 +827,130 @@ func (x *pgTr) translate(fd *ast.FuncDecl) (body, sig, errs string) {
 		sig = "(e : SEnv) (sent : List Bytes) " + ps + " : Outcome (List Bytes × Option Err)"
 	}
 	return body, sig, ""
+}
+
+// sendStmt translates the statement forms of icmp4SendPacket: the pooled buffer, the encoders writing into it,
+// the checksum store into the message, the three `if x, err = f(…); err != nil { return err }` steps.
+func (x *pgTr) sendStmt(s ast.Stmt, ind string, next func(string) string) (string, bool) {
+	args := func(c *ast.CallExpr, from int) []string {
+		var a []string
+		for _, e := range c.Args[from:] {
+			t, _ := x.expr(e)
+			a = append(a, arpPar(t))
+		}
+		return a
+	}
+	// ether.Payload() as an argument
+	payloadOf := func(e ast.Expr) (string, bool) {
+		c, ok := e.(*ast.CallExpr)
+		if !ok || len(c.Args) != 0 {
+			return "", false
+		}
+		sel, ok := c.Fun.(*ast.SelectorExpr)
+		if !ok || sel.Sel.Name != "Payload" || !x.sls[nodeText(sel.X)] {
+			return "", false
+		}
+		return nodeText(sel.X), true
+	}
+	errRet := func(v *ast.IfStmt, errName string) bool {
+		if v.Else != nil || nodeText(v.Cond) != errName+" != nil" || len(v.Body.List) != 1 {
+			return false
+		}
+		r, ok := v.Body.List[0].(*ast.ReturnStmt)
+		return ok && len(r.Results) == 1 && nodeText(r.Results[0]) == errName
+	}
+	switch v := s.(type) {
+	case *ast.DeferStmt:
+		if nodeText(v.Call.Fun) == "EtherBufferPool.Put" && len(v.Call.Args) == 1 && nodeText(v.Call.Args[0]) == x.buf && x.buf != "" {
+			x.ignore(s, "buffer pool")
+			return next(ind), true
+		}
+	case *ast.AssignStmt:
+		if len(v.Lhs) != 1 || len(v.Rhs) != 1 {
+			return "", false
+		}
+		lhs := nodeText(v.Lhs[0])
+		switch nodeText(v.Rhs[0]) {
+		case "EtherBufferPool.Get().(*[EthMaxSize]byte)":
+			if v.Tok == token.DEFINE && x.buf == "" {
+				x.buf = lhs
+				x.callees["EtherBufferPool.Get (the pooled array, any contents)"] = true
+				return ind + "let m : Mem := e.pool\n" + next(ind), true
+			}
+		case "Ether(" + x.buf + "[:])":
+			if x.buf != "" && v.Tok == token.DEFINE {
+				x.sls[lhs] = true
+				return ind + "let " + lhs + " : Sl := whole m\n" + next(ind), true
+			}
+		}
+		c, ok := v.Rhs[0].(*ast.CallExpr)
+		if !ok {
+			return "", false
+		}
+		switch nodeText(c.Fun) {
+		case "EncodeEther":
+			if len(c.Args) == 4 && x.sls[nodeText(c.Args[0])] {
+				x.sls[lhs] = true
+				x.callees["EncodeEther"] = true
+				return ind + "let (m, " + lhs + ") ← encodeEther m " + nodeText(c.Args[0]) + " " + strings.Join(args(c, 1), " ") + "\n" + next(ind), true
+			}
+		case "EncodeIP4":
+			if src, ok := payloadOf(c.Args[0]); ok && len(c.Args) == 4 {
+				x.sls[lhs] = true
+				x.callees["EncodeIP4"] = true
+				x.callees["Ether.Payload"] = true
+				x.assume["an encoder handed a nil slice (Ether.Payload() of a frame shorter than its header) panics: EncodeIP4 writes b[0]"] = true
+				return ind + "let t_pay ← etherPayloadNN m " + src + "\n" + ind + "let (m, " + lhs + ") ← encodeIP4 m t_pay " + strings.Join(args(c, 1), " ") + "\n" + next(ind), true
+			}
+		}
+	case *ast.ExprStmt:
+		// ICMP(p).SetChecksum(Checksum(p))
+		c, ok := v.X.(*ast.CallExpr)
+		if ok && len(c.Args) == 1 {
+			if sel, ok := c.Fun.(*ast.SelectorExpr); ok && sel.Sel.Name == "SetChecksum" {
+				if conv, ok := sel.X.(*ast.CallExpr); ok && nodeText(conv.Fun) == "ICMP" && len(conv.Args) == 1 {
+					msg := nodeText(conv.Args[0])
+					if _, known := x.vars[msg]; known && nodeText(c.Args[0]) == "Checksum("+msg+")" {
+						x.callees["ICMP.SetChecksum"] = true
+						x.callees["Checksum"] = true
+						return ind + "let " + msg + " ← icmpSetChecksum " + msg + " (checksum " + msg + ")\n" + next(ind), true
+					}
+				}
+			}
+		}
+	case *ast.IfStmt:
+		as, ok := v.Init.(*ast.AssignStmt)
+		if !ok || len(as.Lhs) != 2 || len(as.Rhs) != 1 {
+			return "", false
+		}
+		c, ok := as.Rhs[0].(*ast.CallExpr)
+		if !ok {
+			return "", false
+		}
+		l0, errName := nodeText(as.Lhs[0]), nodeText(as.Lhs[1])
+		if !errRet(v, errName) {
+			return "", false
+		}
+		sel, _ := c.Fun.(*ast.SelectorExpr)
+		tail := ind + "if " + errName + ".isSome then do\n" + ind + "  .ok (sent, " + errName + ")\n" + ind + "else do\n"
+		switch {
+		case sel != nil && sel.Sel.Name == "AppendPayload" && x.sls[nodeText(sel.X)] && l0 == nodeText(sel.X) && len(c.Args) == 2 && x.tyName(sel.X) == "packet.IP4":
+			x.callees["IP4.AppendPayload"] = true
+			x.vars[errName] = errName
+			return ind + "let (m, " + l0 + ", " + errName + ") ← ip4AppendPayloadE m " + l0 + " " + strings.Join(args(c, 0), " ") + "\n" + tail + next(ind+"  "), true
+		case sel != nil && sel.Sel.Name == "SetPayload" && x.sls[nodeText(sel.X)] && l0 == nodeText(sel.X) && len(c.Args) == 1 && x.sls[nodeText(c.Args[0])] && x.tyName(sel.X) == "packet.Ether":
+			x.callees["Ether.SetPayload"] = true
+			x.vars[errName] = errName
+			return ind + "let (" + l0 + ", " + errName + ") ← etherSetPayloadE m " + l0 + " " + nodeText(c.Args[0]) + "\n" + tail + next(ind+"  "), true
+		case nodeText(c.Fun) == "h.Conn.WriteTo" && l0 == "_" && len(c.Args) == 2 && x.sls[nodeText(c.Args[0])]:
+			x.callees["Conn.WriteTo"] = true
+			x.vars[errName] = errName
+			return ind + "let (sent, " + errName + ") ← connWrite e sent (" + nodeText(c.Args[0]) + ".bytes m)\n" + tail + next(ind+"  "), true
+		}
+	}
+	return "", false
+}
+
+func (x *pgTr) tyName(e ast.Expr) string {
+	return types.TypeString(x.info.TypeOf(e), func(p *types.Package) string { return p.Name() })
 }
